@@ -22,6 +22,8 @@ import (
 	"github.com/cometbft/cometbft/abci/types"
 	cmtproto "github.com/cometbft/cometbft/proto/tendermint/types"
 
+	"github.com/oasisprotocol/oasis-core/go/consensus/cometbft/api"
+
 	"github.com/oasisprotocol/oasis-core/go/common"
 	"github.com/oasisprotocol/oasis-core/go/common/cbor"
 	"github.com/oasisprotocol/oasis-core/go/common/crypto/signature"
@@ -60,6 +62,11 @@ type c01Case struct {
 	// The closing block is executed after failed rounds, after a restart before commit, and by
 	// one replica whose operator pre-submitted the descriptor.
 	GovUpgrade bool `json:"gov_upgrade,omitempty"`
+	// Faults: a small harness-side application (muxdrv.FaultApp) is registered with the real mux on
+	// every replica; in most blocks ONE replica suffers a one-off node-local fault (a panic after
+	// state was written) inside ProcessProposal -- or the proposer inside PrepareProposal -- and
+	// then gets the same block as decided, with no other proposal phase or restart in between.
+	Faults bool `json:"faults,omitempty"`
 	// informational
 	Height  int64    `json:"height,omitempty"`
 	Replica string   `json:"replica,omitempty"`
@@ -88,6 +95,8 @@ type c01Run struct {
 	rts    bool
 	upg    bool
 	gov      bool
+	faults   bool
+	faultApps []*muxdrv.FaultApp
 	govStage int
 	govID    uint64
 	govClose int64
@@ -158,6 +167,16 @@ func (c *c01Run) configs() []muxdrv.ReplicaConfig {
 			cfgs[i].UpgradeManager = true
 		}
 	}
+	if c.faults {
+		if c.faultApps == nil {
+			for range cfgs {
+				c.faultApps = append(c.faultApps, &muxdrv.FaultApp{})
+			}
+		}
+		for i := range cfgs {
+			cfgs[i].ExtraApps = []api.Application{c.faultApps[i]}
+		}
+	}
 	return cfgs
 }
 
@@ -186,7 +205,7 @@ type violation struct {
 }
 
 func (c *c01Run) theCase() c01Case {
-	return c01Case{Seed: c.seed, Blocks: c.blocks, NoBackground: !c.bg, Tie: c.tie, Procs: c.procs, Runtimes: c.rts, Upgrade: c.upg, GovUpgrade: c.gov}
+	return c01Case{Seed: c.seed, Blocks: c.blocks, NoBackground: !c.bg, Tie: c.tie, Procs: c.procs, Runtimes: c.rts, Upgrade: c.upg, GovUpgrade: c.gov, Faults: c.faults}
 }
 
 func c01GenesisOpts(seed uint64, tie bool) muxdrv.GenesisOpts {
@@ -808,6 +827,20 @@ func (c *c01Run) block(b int) *violation {
 	if c.gov {
 		gens = append(gens, c.govStep(prop, &ss)...)
 	}
+	nFaultAdds := 0
+	if c.faults {
+		for j := 0; j < 1+r.Intn(3) && len(ss) > 0; j++ {
+			k := r.Intn(len(ss))
+			sd := ss[k]
+			ss = append(ss[:k], ss[k+1:]...)
+			var n uint64
+			if acc, err := prop.Account(0, sd.key.Address()); err == nil {
+				n = acc.General.Nonce
+			}
+			gens = append(gens, txGen{muxdrv.Sign(sd.key, muxdrv.TxFaultAdd(n, muxdrv.Fee(5, muxdrv.DefaultGas), 1+r.U64()%100)), "fault-add", "valid"})
+			nFaultAdds++
+		}
+	}
 	for i := 0; i < ntx && len(ss) > 0; i++ {
 		k := r.Intn(len(ss))
 		s := ss[k]
@@ -897,6 +930,45 @@ func (c *c01Run) block(b int) *violation {
 		}
 	}
 
+	// fault injection (fault histories): who, where
+	victim, faultMode := -1, ""
+	if c.faults && b > 0 && r.Chance(70) {
+		switch r.Intn(4) {
+		case 0:
+			faultMode = "begin"
+		default:
+			faultMode = fmt.Sprintf("tx%d", 1+r.Intn(nFaultAdds))
+		}
+		if r.Chance(30) {
+			victim = p // the proposer, inside PrepareProposal
+		} else {
+			victim = (p + 1 + r.Intn(len(c.reps)-1)) % len(c.reps)
+		}
+	}
+	arm := func(i int) {
+		if faultMode == "begin" {
+			c.faultApps[i].ArmBegin()
+		} else {
+			var k int
+			fmt.Sscanf(faultMode, "tx%d", &k)
+			c.faultApps[i].ArmTx(k)
+		}
+	}
+	if victim == p {
+		arm(p)
+		before := c.faultApps[p].Fired.Load()
+		failed, ferr := c.reps[p].Propose(in, cand)
+		if ferr != nil {
+			return c.fail("PrepareProposal with an injected fault did not recover: "+ferr.Error(), h, p, desc, nil)
+		}
+		fired := c.faultApps[p].Fired.Load() > before
+		c.faultApps[p].Disarm()
+		c.sum.Count("fault_injection", fmt.Sprintf("in-prepare(%s) fired=%v empty-proposal=%v", strings.TrimRight(faultMode, "0123456789"), fired, len(failed) == 0))
+		if fired && len(failed) != 0 {
+			return c.fail("PrepareProposal returned a proposal although the execution panicked", h, p, desc, nil)
+		}
+		// the proposer simply tries again in the next round
+	}
 	list, err := c.propose(p, in, cand)
 	if err != nil {
 		return c.fail("PrepareProposal failed on the proposer: "+err.Error(), h, p, desc, nil)
@@ -993,6 +1065,24 @@ func (c *c01Run) block(b int) *violation {
 				c.decisionCase(rp, "begin", in, list, desc, i)
 				res, err = c.execOn(i, "replay", in, list)
 			}
+		case "fault-in-process+replay":
+			// a one-off node-local fault makes this replica's ProcessProposal panic (recovered by
+			// the mux into REJECT) after state was written; the block is decided by the others
+			// and arrives through BeginBlock..Commit, nothing else in between.
+			arm(i)
+			before := c.faultApps[i].Fired.Load()
+			accepted, perr := rp.ProcessProposal(in, list)
+			if perr != nil {
+				return c.fail("ProcessProposal with an injected fault did not recover: "+perr.Error(), h, i, desc, nil)
+			}
+			fired := c.faultApps[i].Fired.Load() > before
+			c.faultApps[i].Disarm()
+			c.sum.Count("fault_injection", fmt.Sprintf("in-process(%s) fired=%v accepted=%v", strings.TrimRight(faultMode, "0123456789"), fired, accepted))
+			if fired && accepted {
+				return c.fail("ProcessProposal accepted a proposal whose execution panicked", h, i, desc, nil)
+			}
+			c.decisionCase(rp, "begin", in, list, desc, i)
+			res, err = c.execOn(i, "replay", in, list)
 		case "stale-same-header+process":
 			// the replica prepared a proposal under the SAME header with the same number of
 			// transactions but different content (only the transaction comparison of isEqual
@@ -1041,6 +1131,9 @@ func (c *c01Run) block(b int) *violation {
 			oi++
 			if f, ok := forced[i]; ok {
 				path = f
+			}
+			if i == victim {
+				path = "fault-in-process+replay"
 			}
 		}
 		if v := exec(i, path); v != nil {
@@ -1323,7 +1416,7 @@ func (c *c01Run) background(i int, stop chan struct{}, wg *sync.WaitGroup) {
 
 // ---------- entry point ----------
 
-func c01Main(seed uint64, out string, blocks, runs int, replay string, noBg bool, tieRuns, tieBlocks, procRuns, rtRuns, upgRuns, govRuns int) {
+func c01Main(seed uint64, out string, blocks, runs int, replay string, noBg bool, tieRuns, tieBlocks, procRuns, rtRuns, upgRuns, govRuns, faultRuns int) {
 	sum := coqout.NewSummary("one evaluation = one block executed by one replica and compared; distinct_nontrivial = number of distinct (history, height) blocks that carry at least one user transaction, evidence, a non-unanimous vote pattern or an epoch transition (each executed on 4 replicas/paths)")
 	w := coqout.NewWriter(out, c01Header, "run_case", "coutput_eqb", 60)
 	var cases []c01Case
@@ -1349,6 +1442,9 @@ func c01Main(seed uint64, out string, blocks, runs int, replay string, noBg bool
 		for i := 0; i < runs; i++ {
 			cases = append(cases, c01Case{Seed: seed*1000 + uint64(i), Blocks: blocks, NoBackground: noBg, Procs: i < procRuns, Runtimes: i >= runs-rtRuns, Upgrade: i < upgRuns})
 		}
+		for i := 0; i < faultRuns; i++ {
+			cases = append(cases, c01Case{Seed: seed*1000 + 800 + uint64(i), Blocks: blocks, NoBackground: noBg, Faults: true})
+		}
 		for i := 0; i < govRuns; i++ {
 			cases = append(cases, c01Case{Seed: seed*1000 + 700 + uint64(i), Blocks: 12, NoBackground: noBg, GovUpgrade: true})
 		}
@@ -1357,7 +1453,10 @@ func c01Main(seed uint64, out string, blocks, runs int, replay string, noBg bool
 		}
 	}
 	for _, cs := range cases {
-		run := &c01Run{seed: cs.Seed, blocks: cs.Blocks, bg: !cs.NoBackground, tie: cs.Tie, procs: cs.Procs, rts: cs.Runtimes, upg: cs.Upgrade, gov: cs.GovUpgrade, sum: sum, w: w}
+		run := &c01Run{seed: cs.Seed, blocks: cs.Blocks, bg: !cs.NoBackground, tie: cs.Tie, procs: cs.Procs, rts: cs.Runtimes, upg: cs.Upgrade, gov: cs.GovUpgrade, faults: cs.Faults, sum: sum, w: w}
+		if cs.Faults {
+			sum.Count("history_variant", "with-injected-faults")
+		}
 		if cs.GovUpgrade {
 			sum.Count("history_variant", "with-governance-upgrade-proposal")
 		}
